@@ -79,6 +79,7 @@ type Globals struct {
 	strLits   map[string]string
 	strOrder  []string
 	fldFns    map[string]bool
+	fldTag    map[string]int
 	axioms    []gAxiom // quantified background axioms, included when their token occurs in the script
 	specFns   map[string]*SpecFn
 	ghosts    map[string]*Ghost
@@ -119,6 +120,7 @@ func newGlobals() *Globals {
 		typeTags: map[string]int{},
 		strLits:  map[string]string{},
 		fldFns:   map[string]bool{},
+		fldTag:   map[string]int{},
 		specFns:  map[string]*SpecFn{},
 		ghosts:   map[string]*Ghost{},
 		tpSorts:  map[string]bool{},
@@ -279,6 +281,7 @@ func (g *Globals) fldFn(si *structInfo, i int) string {
 	if !g.fldFns[n] {
 		g.fldFns[n] = true
 		id := len(g.fldFns) + 1
+		g.fldTag[n] = id
 		g.decl("fn "+n, fmt.Sprintf("(declare-fun %s (Int) Int)", n))
 		g.decl("fn "+n+"_inv", fmt.Sprintf("(declare-fun %s_inv (Int) Int)", n))
 		g.addAxiom("("+n+" ", fmt.Sprintf("(forall ((a Int)) (! (and (= (%s_inv (%s a)) a) (= (tag (%s a)) %d) (= (base (%s a)) (base a)) (not (= (%s a) 0))) :pattern ((%s a))))", n, n, n, id, n, n, n))
